@@ -57,7 +57,7 @@ var baseWeights = map[string]int{
 	"propose": 8, "proposebatch": 1, "proposeconf": 2, "transfer": 1, "readindex": 2,
 	"campaign": 1, "forget": 1, "unreachable": 1, "reportsnap": 3, "compact": 1,
 	"crash": 1, "restart": 4, "isolate": 1, "blocklink": 1, "heal": 2,
-	"duprecent": 2, "diverge": 1, "proposemixed": 1, "burst": 3, "slowdisk": 2, "lagcompact": 1, "stallelect": 1, "hold": 1, "release": 2, "snaprace": 0, "snapunavail": 1, "comeback": 1, "crashrecampaign": 1, "snapthenapp": 0,
+	"duprecent": 2, "diverge": 1, "proposemixed": 1, "burst": 3, "slowdisk": 2, "lagcompact": 1, "stallelect": 1, "hold": 1, "release": 2, "snaprace": 0, "snapunavail": 1, "comeback": 1, "crashrecampaign": 1, "snapthenapp": 0, "leavexfer": 0,
 }
 
 func mkProfile(name string, over map[string]int, f func(p *Profile)) *Profile {
@@ -83,7 +83,7 @@ var Profiles = map[string]*Profile{
 	"crash": mkProfile("crash", map[string]int{"comeback": 2, "crashrecampaign": 4, "stallelect": 3, "crash": 6, "restart": 14, "step": 30, "service": 15, "propose": 10}, func(p *Profile) { p.PAsync = 60 }),
 	"snap": mkProfile("snap", map[string]int{"snapthenapp": 3, "diverge": 3, "compact": 8, "lagcompact": 5, "snaprace": 4, "hold": 2, "isolate": 4, "heal": 4, "propose": 12, "proposeconf": 3, "dup": 5,
 		"reportsnap": 6, "crash": 2}, func(p *Profile) { p.PJoiner = 60 }),
-	"conf": mkProfile("conf", map[string]int{"proposeconf": 10, "tickcampaign": 4, "campaign": 3, "crash": 2, "restart": 6,
+	"conf": mkProfile("conf", map[string]int{"leavexfer": 2, "proposeconf": 10, "tickcampaign": 4, "campaign": 3, "crash": 2, "restart": 6,
 		"isolate": 3, "compact": 3, "step": 20}, func(p *Profile) { p.PJoiner = 70; p.PNoCCVal = 15 }),
 	// confread: membership changes with reads issued while configurations are
 	// joint (explicit joint changes stay joint until somebody proposes to leave)
@@ -109,7 +109,7 @@ var Profiles = map[string]*Profile{
 	"crashbase": mkProfile("crashbase", map[string]int{"comeback": 0, "crashrecampaign": 0, "service": 0, "stabilize": 0, "step": 60, "deliver": 40, "crash": 0, "restart": 0,
 		"propose": 12, "tick": 10, "tickall": 6, "diverge": 0, "lagcompact": 0, "stallelect": 0, "burst": 2, "slowdisk": 1, "compact": 2,
 		"proposeconf": 2, "dup": 3, "drop": 2}, func(p *Profile) { p.PAsync = 50 }),
-	"live": mkProfile("live", map[string]int{"snapthenapp": 2, "lagcompact": 2, "proposeconf": 5, "compact": 3, "crash": 3, "restart": 4, "readindex": 2, "transfer": 3,
+	"live": mkProfile("live", map[string]int{"leavexfer": 3, "snapthenapp": 2, "lagcompact": 2, "proposeconf": 5, "compact": 3, "crash": 3, "restart": 4, "readindex": 2, "transfer": 3,
 		"dup": 3, "isolate": 3, "drop": 6, "propose": 12, "unreachable": 2}, func(p *Profile) { p.AllowZeroApplyQuota = true; p.PTinyLimits = 40 }),
 }
 
@@ -490,6 +490,7 @@ func (s *Sim) RandomAction(p *Profile) {
 	})
 	add("snaprace", len(up) >= 2, func() { s.SnapshotRace(p) })
 	add("snapthenapp", len(up) >= 2, func() { s.SnapThenAppend(p) })
+	add("leavexfer", len(up) >= 3, func() { s.LeaveDuringTransfer(p) })
 	add("diverge", len(up) >= 3, func() { s.Diverge(p) })
 	add("comeback", s.comebackFeasible(), func() { s.Comeback(p) })
 	add("crashrecampaign", len(up) >= 3, func() { s.CrashRecampaign(p) })
